@@ -8,8 +8,10 @@ import (
 	"fmt"
 	"net"
 	"net/url"
+	"os"
 	"strings"
 	"sync"
+	"sync/atomic"
 	"time"
 )
 
@@ -35,9 +37,23 @@ type HTTPTracker struct {
 	wg    sync.WaitGroup
 }
 
+var rot atomic.Uint32
+
+// spread replaces the catch-all "127.0.0.1:0" by one of ~900 000 loopback addresses that changes with every call.
+// Component-level units open a listener and one connection per case, hundreds of thousands of times in the thorough
+// tier; on a single address the connections waiting in TIME_WAIT use up the ephemeral ports ("bind: address already
+// in use"). Spread over many server addresses every (source, destination) pair is fresh.
+func spread(addr string) string {
+	if addr != "127.0.0.1:0" {
+		return addr
+	}
+	n := rot.Add(1) + uint32(os.Getpid())*7919
+	return fmt.Sprintf("127.%d.%d.%d:0", 241+n%14, (n>>8)&255, 1+n%254)
+}
+
 // NewHTTP starts a tracker on addr ("127.0.0.1:0").
 func NewHTTP(addr string, reply func(n int, r HTTPReq) []byte) (*HTTPTracker, error) {
-	ln, err := net.Listen("tcp", addr)
+	ln, err := net.Listen("tcp", spread(addr))
 	if err != nil {
 		return nil, err
 	}
@@ -178,7 +194,7 @@ type UDPTracker struct {
 }
 
 func NewUDP(addr string, reply func(n int, r UDPReq) [][]byte) (*UDPTracker, error) {
-	ua, err := net.ResolveUDPAddr("udp4", addr)
+	ua, err := net.ResolveUDPAddr("udp4", spread(addr))
 	if err != nil {
 		return nil, err
 	}
